@@ -1,5 +1,5 @@
 From Coq Require Import List String ZArith Bool Arith Ascii.
-From Naunet Require Import Lib.Sexp Lib.ListX Lib.PyStr Model.CExpr Model.RateGas Wire.WDecode.
+From Naunet Require Import Lib.Sexp Lib.ListX Lib.PyStr Model.CExpr Model.RateGas Wire.WDecode Proofs.ReplaceBridge.
 From NaunetGen Require Import Tables.
 Import ListNotations.
 Open Scope string_scope.
@@ -13,7 +13,8 @@ Definition put_rate (mags : list string) (r : refusal + txt) : sexp :=
   | inl RNotImplemented => L [A "refused"; A "notimplemented"]
   | inl RUnknown => L [A "refused"; A "unknown"]
   | inr s => L [A "ok"; A (str (flatten (fun i => chars (nth i mags "?")) s));
-                bs (no_bad_token s); bs (match parse s with Some _ => true | None => false end)]
+                bs (no_bad_token s); bs (match parse s with Some _ => true | None => false end);
+                bs (forallb (fun m => atom_ok (chars m)) (firstn 3 mags))]   (* hypothesis of beautify_bridge *)
   end.
 
 (* the type codes come from the live ReactionType enum *)
